@@ -159,12 +159,24 @@ func (s *Swarm[T]) Ask(ctx context.Context, resp []byte, dst Addr[T], data p2p.I
 				return err
 			}
 		}
+		// a context without a deadline can still be cancelled: abort the stream then.
+		stop := context.AfterFunc(ctx, func() {
+			stream.CancelRead(0)
+			stream.CancelWrite(0)
+		})
+		defer stop()
 		// write
 		if err := writeFrame(stream, data); err != nil {
+			if ctx.Err() != nil {
+				return ctx.Err()
+			}
 			return err
 		}
 		log.Debug("ask request sent")
 		n, err = readFrame(stream, resp, s.mtu)
+		if err != nil && ctx.Err() != nil {
+			return ctx.Err()
+		}
 		return err
 	}); err != nil {
 		return 0, err
